@@ -18,6 +18,20 @@ import threading
 import typing as t
 
 
+ACTIVE: t.Optional["ThreadSim"] = None  # the scheduler whose threads are running right now (simulated locks ask it)
+
+
+def mark(kind: str) -> None:
+    """Called by the world's seams (socket send / receive, security-context wrap / unwrap, entropy draw, clock reading) when a
+    simulated caller thread crosses them: the scheduler may pre-empt that thread at its very next point.  State that is in
+    flight across such a crossing (a buffer just filled, a token just verified, a value just drawn) is where interleavings
+    matter, and uniformly random pre-emptions rarely land there."""
+    sim = ACTIVE
+    if sim is not None and sim.cur is not None and threading.current_thread() is sim.cur.thread:
+        sim._marked = kind
+        sim.marks_seen += 1
+
+
 class StepLimit(BaseException):
     """A thread used more pre-emption points than the run's cap (treated like a hang by the oracles)."""
 
@@ -27,7 +41,7 @@ class Wedged(Exception):
 
 
 class _T:
-    __slots__ = ("idx", "fn", "sem", "thread", "result", "exc", "done", "steps")
+    __slots__ = ("idx", "fn", "sem", "thread", "result", "exc", "done", "steps", "waiting")
 
     def __init__(self, idx: int, fn):
         self.idx = idx
@@ -38,6 +52,7 @@ class _T:
         self.exc: t.Optional[BaseException] = None
         self.done = False
         self.steps = 0
+        self.waiting: t.Optional[t.Callable[[], bool]] = None  # set while the thread waits for a simulated lock
 
 
 class ThreadSim:
@@ -45,6 +60,8 @@ class ThreadSim:
 
     policy: {"mode": "prob", "p": 0.02}                     switch with probability p at each point
             {"mode": "points", "n": 3, "horizon": 4000}     n switch points drawn over the first ``horizon`` points
+            {"mode": "marks", "q": 0.3, "p": 0.0}           switch with probability q at the first point after the thread crossed a seam
+                                                            of the world (see ``mark``), and with probability p elsewhere
             {"mode": "script", "first": i, "switches": [[thread, k, to], ..], "ends": [..]}   explicit (replay / minimised): thread is
                  pre-empted at ITS k-th point in favour of ``to`` - counted per thread, so that dropping one pre-emption leaves the others
                  where they were in each thread's own execution
@@ -63,6 +80,12 @@ class ThreadSim:
         self.steps = 0
         self.switches: t.List[t.List[int]] = []  # pre-emptions: [thread, its own point count, to]
         self.ends: t.List[int] = []  # who went on each time a thread finished
+        self.blocks: t.List[int] = []  # who went on each time a thread had to wait for a simulated lock
+        self._blocks: t.List[int] = []
+        self.lock_waits = 0
+        self._marked: t.Optional[str] = None
+        self.marks_seen = 0
+        self.marks_used = 0
         self.ts: t.List[_T] = []
         self.cur: t.Optional[_T] = None
         self._done = threading.Semaphore(0)
@@ -73,7 +96,35 @@ class ThreadSim:
 
     # -- scheduling -----------------------------------------------------------
     def _runnable_others(self, me: _T) -> t.List[_T]:
-        return [x for x in self.ts if not x.done and x is not me]
+        return [x for x in self.ts if not x.done and x is not me and (x.waiting is None or x.waiting())]
+
+    def block_on(self, pred: t.Callable[[], bool], give_up: bool = False) -> bool:
+        """Called by a simulated lock on behalf of the running thread: wait until ``pred`` holds, letting others run.
+        Returns False (``give_up``: the acquire had a timeout) or raises Blocks when nobody is left who could make it true."""
+        from simworld import net
+
+        me = self.cur
+        assert me is not None
+        while not pred():
+            me.waiting = pred
+            others = self._runnable_others(me)
+            if not others:
+                me.waiting = None
+                if give_up:
+                    return False
+                raise net.Blocks("deadlock: every caller thread waits for a lock")
+            if self.policy["mode"] == "script":
+                want = self._blocks.pop(0) if self._blocks else -1
+                nxt = next((x for x in others if x.idx == want), others[0])
+            else:
+                nxt = others[self.rng.randrange(len(others))]
+            self.blocks.append(nxt.idx)
+            self.lock_waits += 1
+            self.cur = nxt
+            nxt.sem.release()
+            me.sem.acquire()
+        me.waiting = None
+        return True
 
     def _decide(self, me: _T) -> t.Optional[_T]:
         others = self._runnable_others(me)
@@ -91,6 +142,13 @@ class ThreadSim:
         if mode == "points":
             if self.steps not in self._points:
                 return None
+            return others[self.rng.randrange(len(others))]
+        if mode == "marks":
+            marked, self._marked = self._marked, None
+            if self.rng.random() >= (self.policy.get("q", 0.3) if marked else self.policy.get("p", 0.0)):
+                return None
+            if marked:
+                self.marks_used += 1
             return others[self.rng.randrange(len(others))]
         if self.rng.random() >= self.policy.get("p", 0.02):
             return None
@@ -143,7 +201,7 @@ class ThreadSim:
         finally:
             sys.settrace(None)
             me.done = True
-            rest = [x for x in self.ts if not x.done]
+            rest = [x for x in self.ts if not x.done and (x.waiting is None or x.waiting())] or [x for x in self.ts if not x.done]
             if rest:
                 # the scheduler's choice of who continues when a thread ends
                 if self.policy["mode"] == "script":
@@ -165,6 +223,7 @@ class ThreadSim:
         elif self.policy["mode"] == "script":
             self._script = {(int(a), int(k)): int(to) for a, k, to in self.policy.get("switches", [])}
             self._ends = [int(x) for x in self.policy.get("ends", [])]
+            self._blocks = [int(x) for x in self.policy.get("blocks", [])]
         for x in self.ts:
             x.thread = threading.Thread(target=self._body, args=(x,), name=f"simthread-{x.idx}", daemon=True)
             x.thread.start()
@@ -172,15 +231,20 @@ class ThreadSim:
             first = self.ts[int(self.policy.get("first", 0)) % len(self.ts)]
         else:
             first = self.ts[self.rng.randrange(len(self.ts))]
+        global ACTIVE
         self.first = first.idx
         self.cur = first
-        first.sem.release()
-        if not self._done.acquire(timeout=watchdog_s):
-            raise Wedged(f"simulated threads did not finish within {watchdog_s}s of wall time (steps={self.steps})")
+        ACTIVE = self
+        try:
+            first.sem.release()
+            if not self._done.acquire(timeout=watchdog_s):
+                raise Wedged(f"simulated threads did not finish within {watchdog_s}s of wall time (steps={self.steps})")
+        finally:
+            ACTIVE = None
         for x in self.ts:
             x.thread.join(timeout=5)
         return [(x.result, x.exc) for x in self.ts]
 
     def script(self) -> dict:
         """The interleaving actually taken, as an explicit policy (for replay files and minimisation)."""
-        return {"mode": "script", "first": self.first, "switches": [list(x) for x in self.switches], "ends": list(self.ends)}
+        return {"mode": "script", "first": self.first, "switches": [list(x) for x in self.switches], "ends": list(self.ends), "blocks": list(self.blocks)}
